@@ -309,7 +309,7 @@ def harnesses(tier):
 
 
 BUDGET = {"quick": 10000, "thorough": 60000}
-GLOBAL = {"quick": 400000, "thorough": 6000000}
+GLOBAL = {"quick": 400000, "thorough": 3000000}
 
 
 def leg_schedules(part, tier, shard, nshards):
